@@ -225,4 +225,39 @@ theorem fillSlotsX_length (ps : List Bytes) : ∀ (v : List Int) (i : Nat),
       · rfl
       · rw [ih]; simp [setSlot]
 
+/-! ### round trips (used by Props/C17 and by the report proofs) -/
+
+theorem versionUnmarshal_marshal (kind : Bytes) (v : List Int) (old : Version)
+    (hk : kind ≠ []) (hc : 58 ∉ kind) (hv : v.length = 10) (hold : old.v.length = 10)
+    (hr : ∀ x ∈ v, inInt32 x) :
+    versionUnmarshal old (versionMarshal ⟨kind, v⟩) = some ⟨kind, v⟩ := by
+  have hke : kind.isEmpty = false := by cases kind <;> simp_all
+  simp only [versionMarshal, hke, Bool.false_eq_true, if_false, versionUnmarshal]
+  rw [cut_append 58 kind _ hc]
+  simp only
+  match v, hv, hr with
+  | x :: xs, hv, hr =>
+    have hparts : ∀ q ∈ showInt x :: xs.map showInt, 46 ∉ q := by
+      intro q hq
+      have : q ∈ (x :: xs).map showInt := by simpa using hq
+      rcases List.mem_map.1 this with ⟨y, _, rfl⟩
+      exact showInt_no 46 (by decide) (by decide) y
+    rw [List.map_cons, splitOn_joinWith 46 _ _ hparts, ← List.map_cons]
+    rw [fillSlots_showInt (x :: xs) old.v 0 hold (by omega) hr]
+    have hlen : old.v.length ≤ 0 + (x :: xs).length := by omega
+    rw [List.drop_eq_nil_of_le hlen]
+    simp
+
+theorem digestParse_repr (d : Digest) (hb : ∀ b ∈ d.checksum, b < 256)
+    (hs : digestSize d.algo = some d.checksum.length) :
+    digestParse (digestRepr d) = some d := by
+  have hc : 58 ∉ d.algo := by
+    unfold digestSize at hs
+    split at hs
+    · rename_i h; rw [h]; decide
+    · split at hs
+      · rename_i h; rw [h]; decide
+      · cases hs
+  simp only [digestParse, digestRepr, cut_append 58 d.algo _ hc, hexDecode_hexEncode _ hb, hs, if_true]
+
 end ClairModel.Codec
